@@ -42,7 +42,7 @@ def fieldsJ (r : RowFields) : Json :=
     ("mainarg_dict", Json.arr (r.mainargDict.map itemJ).toArray),
     ("mainarg_flow_name", strJ r.mainargFlowName),
     ("wa_template", Json.mkObj [("name", strJ r.waTemplate.name), ("uuid", strJ r.waTemplate.uuid),
-                                ("variables", strListJ r.waTemplate.variables)]),
+                                ("variables", strListJ r.waTemplate.vars)]),
     ("webhook", Json.mkObj [("url", strJ r.webhook.url), ("method", strJ r.webhook.method),
                             ("headers", Json.arr (r.webhook.headers.map itemJ).toArray),
                             ("body", strJ r.webhook.body)]),
@@ -76,7 +76,7 @@ def fieldsOfJ (j : Json) : Except String RowFields := do
     mainargDict := ← getItemsD j "mainarg_dict"
     mainargFlowName := getStrD j "mainarg_flow_name" []
     waTemplate := { name := getStrD wa "name" [], uuid := getStrD wa "uuid" [],
-                    variables := ← getStrListD wa "variables" }
+                    vars := ← getStrListD wa "variables" }
     webhook := { url := getStrD wh "url" [], method := getStrD wh "method" [],
                  headers := ← getItemsD wh "headers", body := getStrD wh "body" [] }
     choices := ← getStrListD j "choices"
@@ -122,7 +122,7 @@ def actJ : Act → Json
       ("templating", match templ with
         | none => Json.null
         | some t => Json.mkObj [("name", strJ t.name), ("template_uuid", strJ t.templateUuid),
-                                ("variables", strListJ t.variables)])]
+                                ("variables", strListJ t.vars)])]
   | .setContactField name key ft value =>
     Json.mkObj [("type", "set_contact_field"), ("name", strJ name), ("key", strJ key),
       ("field_type", strJ ft), ("value", strJ value)]
@@ -161,7 +161,7 @@ def actOfJ (j : Json) : Except String Act := do
       | .ok t => do
         let vars ← getStrListD t "variables"
         pure (some { name := ← getStr t "name", templateUuid := ← getStr t "template_uuid",
-                     variables := vars : Templating })
+                     vars := vars : Templating })
     pure (.sendMsg (← getStr j "text") (← getStrListD j "attachments") (← getStrListD j "quick_replies")
       (getBoolD j "all_urns" false) (getStrD j "topic" []) templ)
   | "set_contact_field" =>
